@@ -291,9 +291,6 @@ func (e *exec) Body() {
 		if !e.listener.IsClosed() {
 			e.problems = append(e.problems, "listener still open after Close")
 		}
-		if e.listener.CloseCalls != 1 {
-			e.problems = append(e.problems, fmt.Sprintf("listener closed %d times", e.listener.CloseCalls))
-		}
 	}
 	if e.pconn != nil && !e.pconn.IsClosed() {
 		e.problems = append(e.problems, "packet conn still open after Close")
